@@ -83,6 +83,57 @@ class Ctx:
         self.obs.append(rec)
         self.violations.append(rec)
 
+    def import_rules(self, pid, rules):
+        """Evaluate property `pid`'s rule module on the same facts and adopt the obligations of the listed rules
+        (rules: {rule id -> why it is also a necessary condition of THIS property}). Adopted obligations get the rule id
+        `<pid>:<rule>` and a key under this property; floors and missing anchors of the adopted rules come along.
+        Used where several properties anchor in the same functions: a change that breaks one of them usually breaks
+        the siblings too, and each check must see it."""
+        import importlib
+        if getattr(self, "is_sub", False):
+            return  # a module evaluated for its own rules only: imports are not transitive
+        cache = getattr(Ctx, "_import_cache", None)
+        if cache is None:
+            cache = Ctx._import_cache = {}
+        ck = (pid, self.repo, self.variant)
+        sub = cache.get(ck)
+        if sub is None:
+            sub = Ctx(pid, self.tier, self.seed, repo=self.repo, quiet=True, variant=self.variant)
+            sub.progs = self.progs
+            sub.is_sub = True
+            importlib.import_module(f"vf.props.{pid.lower()}").run(sub)
+            sub.check_floors()
+            cache[ck] = sub
+        for k in sub.crates_used:
+            if k not in self.crates_used:
+                self.crates_used.append(k)
+        self.functions |= sub.functions
+        for rid, why in rules.items():
+            r = sub.rules.get(rid)
+            nid = f"{pid}:{rid}"
+            if r is None:
+                self.missing(nid, f"rule {rid} of {pid}")
+                continue
+            self.rule(nid, r["text"] + f" [shared with {pid}; necessary here because {why}]", floor=None, shape_dependent=r["shape_dependent"])
+            for o in sub.obs:
+                if o["rule"] != rid:
+                    continue
+                rec = dict(o)
+                rec["rule"] = nid
+                rec["key"] = f"{self.pid}|{nid}|{o['instance']}"
+                self.rules[nid]["n"] += 1
+                self.obs.append(rec)
+                if o["ok"]:
+                    self.rules[nid]["ok"] += 1
+                else:
+                    self.violations.append(rec)
+            for v in sub.violations:
+                if v["rule"] == rid and v["instance"] == "floor":
+                    rec = dict(v)
+                    rec["rule"] = nid
+                    rec["key"] = f"{self.pid}|{nid}|floor"
+                    self.violations.append(rec)
+
     def check_floors(self):
         for rid, r in self.rules.items():
             if r["floor"] is not None and r["n"] < r["floor"]:
